@@ -79,7 +79,9 @@ where
         // 0. capacity.
         {
             let any_vec_raw = unsafe{any_vec_ptr.any_vec_raw_mut()};
-            any_vec_raw.reserve(new_len);
+            // `reserve` takes additional count over current `len`, which is `start` now.
+            debug_assert!(any_vec_raw.len == self.start);
+            any_vec_raw.reserve(new_len - self.start);
         }
 
         // 1. drop elements.
